@@ -32,6 +32,12 @@ def size_arg(t):
 
 
 def run(ctx):
+    _run(ctx)
+    from . import c15
+    c15.short_reads(ctx, "eof")
+
+
+def _run(ctx):
     db = ctx.db
     ctx.explanation = (
         "Decides structurally: every allocation-size sink in the decode path is constant, type-bounded (u8/u16 length) or "
